@@ -511,16 +511,16 @@ fn content_spec(input: &str) -> IResult<&str, model::DeclarationContent<'_>> {
 ///
 /// [\[47\] children](https://www.w3.org/TR/2008/REC-xml-20081126/#NT-children)
 fn children(input: &str) -> IResult<&str, model::DeclarationContentItem<'_>> {
-    alt((
-        map(
-            tuple((seq, opt(alt((tag("?"), tag("*"), tag("+")))))),
-            |(v, q)| model::DeclarationContentItem::Seq(v, q),
-        ),
-        map(
-            tuple((choice, opt(alt((tag("?"), tag("*"), tag("+")))))),
-            |(v, q)| model::DeclarationContentItem::Choice(v, q),
-        ),
-    ))(input)
+    map(
+        tuple((choice_or_seq, opt(alt((tag("?"), tag("*"), tag("+")))))),
+        |((is_choice, v), q)| {
+            if is_choice {
+                model::DeclarationContentItem::Choice(v, q)
+            } else {
+                model::DeclarationContentItem::Seq(v, q)
+            }
+        },
+    )(input)
 }
 
 /// (Name | choice | seq) ('?' | '*' | '+')?
@@ -530,14 +530,7 @@ fn children(input: &str) -> IResult<&str, model::DeclarationContentItem<'_>> {
 /// [\[18\] cp](https://www.w3.org/TR/2009/REC-xml-names-20091208/#NT-cp)
 fn cp(input: &str) -> IResult<&str, model::DeclarationContentItem<'_>> {
     alt((
-        map(
-            tuple((seq, opt(alt((tag("?"), tag("*"), tag("+")))))),
-            |(v, q)| model::DeclarationContentItem::Seq(v, q),
-        ),
-        map(
-            tuple((choice, opt(alt((tag("?"), tag("*"), tag("+")))))),
-            |(v, q)| model::DeclarationContentItem::Choice(v, q),
-        ),
+        children,
         map(
             tuple((qname, opt(alt((tag("?"), tag("*"), tag("+")))))),
             |(v, q)| model::DeclarationContentItem::Name(v, q),
@@ -545,44 +538,46 @@ fn cp(input: &str) -> IResult<&str, model::DeclarationContentItem<'_>> {
     ))(input)
 }
 
-/// '(' S? cp ( S? '|' S? cp )+ S? ')'
+/// choice | seq
 ///
-/// [\[49\] choice](https://www.w3.org/TR/2008/REC-xml-20081126/#NT-choice)
-fn choice(input: &str) -> IResult<&str, Vec<model::DeclarationContentItem<'_>>> {
+/// Both productions start with `'(' S? cp`. That common prefix is parsed once and the separator
+/// that follows it tells which of the two this is, so a nested group is never parsed again
+/// (trying `seq` and then `choice` from the start doubles the work at every nesting level).
+///
+/// Returns `true` with the items of a choice, `false` with the items of a seq.
+fn choice_or_seq(input: &str) -> IResult<&str, (bool, Vec<model::DeclarationContentItem<'_>>)> {
     map(
         delimited(
             tuple((tag("("), multispace0)),
             tuple((
                 cp,
-                many1(preceded(tuple((multispace0, tag("|"), multispace0)), cp)),
+                alt((map(choice, |r| (true, r)), map(seq, |r| (false, r)))),
             )),
             tuple((multispace0, tag(")"))),
         ),
-        |(f, mut r)| {
+        |(f, (is_choice, mut r))| {
             r.insert(0, f);
-            r
+            (is_choice, r)
         },
     )(input)
 }
 
+/// '(' S? cp ( S? '|' S? cp )+ S? ')'
+///
+/// The part after the first cp: `( S? '|' S? cp )+`.
+///
+/// [\[49\] choice](https://www.w3.org/TR/2008/REC-xml-20081126/#NT-choice)
+fn choice(input: &str) -> IResult<&str, Vec<model::DeclarationContentItem<'_>>> {
+    many1(preceded(tuple((multispace0, tag("|"), multispace0)), cp))(input)
+}
+
 /// '(' S? cp ( S? ',' S? cp )* S? ')'
+///
+/// The part after the first cp: `( S? ',' S? cp )*`.
 ///
 /// [\[50\] seq](https://www.w3.org/TR/2008/REC-xml-20081126/#NT-seq)
 fn seq(input: &str) -> IResult<&str, Vec<model::DeclarationContentItem<'_>>> {
-    map(
-        delimited(
-            tuple((tag("("), multispace0)),
-            tuple((
-                cp,
-                many0(preceded(tuple((multispace0, tag(","), multispace0)), cp)),
-            )),
-            tuple((multispace0, tag(")"))),
-        ),
-        |(f, mut r)| {
-            r.insert(0, f);
-            r
-        },
-    )(input)
+    many0(preceded(tuple((multispace0, tag(","), multispace0)), cp))(input)
 }
 
 /// '(' S? '#PCDATA' (S? '|' S? Name)* S? ')*' | '(' S? '#PCDATA' S? ')'
